@@ -15,6 +15,19 @@ def is_nan(x):
     return isinstance(x, float) and x != x
 
 
+# the adapters' own option names -> the keyword they must reach statsmodels under (from the adapters' documentation:
+# every model option is passed through under its own name, `sp` is statsmodels' `seasonal_periods`)
+_HW = ["trend", "damped_trend", "seasonal", "sp", "initial_level", "initial_trend", "initial_seasonal", "use_boxcox", "initialization_method"]
+_ETS_INIT = ["error", "trend", "damped_trend", "seasonal", "sp", "initialization_method", "initial_level", "initial_trend", "initial_seasonal", "bounds", "dates", "freq", "missing"]
+_ETS_FIT = ["start_params", "maxiter", "full_output", "disp", "callback", "return_params"]
+SM_OPTIONS = {
+    "hw": {"module": "sktime.forecasting.exp_smoothing", "cls": "ExponentialSmoothing", "attr": "_ExponentialSmoothing", "ctor": _HW,
+           "init": {("seasonal_periods" if k == "sp" else k): k for k in _HW}, "fit": {}},
+    "ets": {"module": "sktime.forecasting.ets", "cls": "AutoETS", "attr": "_ETSModel", "ctor": _ETS_INIT + _ETS_FIT,
+            "init": {("seasonal_periods" if k == "sp" else k): k for k in _ETS_INIT}, "fit": {k: k for k in _ETS_FIT}},
+}
+
+
 class C11(Harness):
     pid = "C11"
     labels = (
@@ -30,6 +43,7 @@ class C11(Harness):
         "poly-least-squares",
         "statsmodels-range",
         "statsmodels-values",
+        "statsmodels-options-forwarded",
     )
     stubs = (
         "sklearn LinearRegression/PolynomialFeatures/make_pipeline := exact rational least-squares model (vf.msk) in the symbolic world; the real scikit-learn in the concrete world",
@@ -63,6 +77,8 @@ class C11(Harness):
             for icpt in (True, False):
                 out.append({"name": "poly-d%d-%s" % (deg, "icpt" if icpt else "noicpt"), "kind": "poly", "degree": deg, "icpt": icpt, "N": b["poly_n_max"], "cost": 2})
         out.append({"name": "statsmodels-adapter", "kind": "sm", "N": 4, "cost": 1})
+        out.append({"name": "statsmodels-options-holtwinters", "kind": "smopt", "which": "hw", "N": 3, "cost": 1})
+        out.append({"name": "statsmodels-options-ets", "kind": "smopt", "which": "ets", "N": 3, "cost": 1})
         return out
 
     def overrides(self, kind, cell):
@@ -126,6 +142,9 @@ class C11(Harness):
             increasing(ctx, hs, lo=-(nn - 1))
             ctx.assume(hs[-1] <= 4)
             inp["fh"] = hs
+        elif kind == "smopt":
+            inp["fh"] = [1]
+            inp["tok"] = fresh_reals(ctx, "opt", len(SM_OPTIONS[cell["which"]]["ctor"]))  # one opaque value per option
         return inp
 
     def _series(self, W, inp):
@@ -182,6 +201,36 @@ class C11(Harness):
             f.fit(y)
             pred = f.predict(fh)
             return {"rejected": False, "index": L(pred.index), "values": L(pred.values), "cutoff": S(f.cutoff), "calls": calls, "y_index_is_range": type(f._y.index).__name__ == "RangeIndex"}
+        if kind == "smopt":
+            spec = SM_OPTIONS[cell["which"]]
+            mod = W.load(spec["module"])
+            rec = []
+            s0 = inp["s0"]
+
+            class Res:
+                params = {"smoothing_level": 0.5}
+
+                def predict(self, start, end):
+                    return pd.Series([W.uf("sm_forecast", [start + i], "i>r") for i in range(int(end - start) + 1)], index=pd.RangeIndex(s0 + start, s0 + end + 1))
+
+            class Model:
+                def __init__(self, endog, **kw):
+                    rec.append({"call": "init", "kw": {k: S(v) for k, v in kw.items()}, "idx": L(endog.index), "vals": L(endog.values)})
+
+                def fit(self, **kw):
+                    rec.append({"call": "fit", "kw": {k: S(v) for k, v in kw.items()}})
+                    return Res()
+
+            old = getattr(mod, spec["attr"])
+            setattr(mod, spec["attr"], Model)
+            try:
+                opts = dict(zip(spec["ctor"], inp["tok"]))
+                f = getattr(mod, spec["cls"])(**opts)
+                f.fit(y)
+                pred = f.predict(fh)
+            finally:
+                setattr(mod, spec["attr"], old)
+            return {"rejected": False, "index": L(pred.index), "values": L(pred.values), "cutoff": S(f.cutoff), "rec": rec}
         raise AssertionError(kind)
 
     # ------------------------------------------------------------------
@@ -189,6 +238,25 @@ class C11(Harness):
         kind = cell["kind"]
         n, s0, y, fh = inp["n"], inp["s0"], inp["y"], inp["fh"]
         c = s0 + n - 1
+        if kind == "smopt":
+            spec = SM_OPTIONS[cell["which"]]
+            opts = dict(zip(spec["ctor"], inp["tok"]))
+            rec = out["rec"]
+            P.check("statsmodels-options-forwarded", [r["call"] for r in rec] == ["init", "fit"], {"calls": [r["call"] for r in rec]})
+            if [r["call"] for r in rec] != ["init", "fit"]:
+                return
+            for r, mapping in ((rec[0], spec["init"]), (rec[1], spec["fit"])):
+                P.check("statsmodels-options-forwarded", sorted(r["kw"]) == sorted(mapping), {"call": r["call"], "missing": sorted(set(mapping) - set(r["kw"])), "unexpected": sorted(set(r["kw"]) - set(mapping))})
+                for sm_name, own in mapping.items():
+                    if sm_name in r["kw"]:
+                        P.eq("statsmodels-options-forwarded", r["kw"][sm_name], opts[own], {"call": r["call"], "option": sm_name})
+            P.check("statsmodels-options-forwarded", len(rec[0]["idx"]) == n)
+            for a, v, i in zip(rec[0]["idx"], rec[0]["vals"], range(n)):
+                P.eq("statsmodels-options-forwarded", a, s0 + i)
+                P.eq("statsmodels-options-forwarded", v, y[i])
+            P.eq("statsmodels-values", out["values"][0], self._uf(P, inp, "sm_forecast", [n], "i>r"))
+            P.eq("index", out["index"][0], c + 1)
+            return
         if kind == "naive":
             strat, sp, wl = cell["strategy"], inp["sp"], inp["wl"]
             if strat == "last":
